@@ -2,6 +2,7 @@
 from __future__ import annotations
 
 import datetime as _dt
+import json
 import random
 
 from vlib import tzcases as T
@@ -13,12 +14,21 @@ RULE = ("enumerated: for each chosen zone, every gap and overlap of its explicit
         "and the sub-minute ones; thorough: every transition of every zone) plus POSIX-rule transitions of sample years, each probed on the wall clock at "
         "{start-1s, start-1us, start, start+1us, middle, end-1us, end, end+1us, end+1s} x fold {0,1} x raise {False,True} over the entry points "
         "datetime(), Timezone.convert(), Timezone.datetime(), set(), at(), replace(), parse(tz=); fixed offsets; random wall tuples. "
-        "zone-spec stream: the Coq zone model (off_utc, fold_utc, off_local) against zoneinfo at every probe. non-trivial = distinct (zone, wall, fold, raise, entry).")
+        "zone-spec stream: the Coq zone model (off_utc, fold_utc, off_local) against zoneinfo at every probe. "
+        "history-* streams: a wall-clock construction AFTER A HISTORY -- one case is a whole list of operations applied to one value "
+        "(origins datetime()/parse()/parse with offset/instance()/naive()/from_timestamp() with every default or an explicit fold, in UTC, a named zone or a "
+        "fixed offset; then set(tz=)/replace(tzinfo=)/set()/replace()/on()/at()/replace(fold=)/in_timezone()/add(h,m,s,us)/naive()/replace(tzinfo=None)), "
+        "25 shapes rotated over {start, middle, end-1us, end} of every chosen gap/overlap, so that the LAST construction lands on the transition wall time and its "
+        "fold is whatever the earlier steps left on the instance; the value after every step is compared with Model/WallHistory.v (hist dispatch entry, in the model) "
+        "and with the documented rules applied step by step by a stdlib-only ledger (the requested fold is carried; a moved value carries 0; an instant carries its own fold). "
+        "non-trivial = distinct (zone, wall, fold, raise, entry) / distinct history.")
 EXHAUSTIVE = {"quick": False, "thorough": True}
 TRUSTED = ["zoneinfo.ZoneInfo (C implementation) and the tzdata tables are the specification side; Spec/Zone.v models zoneinfo's lookups and is validated "
            "against it at every probe (zone-spec stream); tables are read through zoneinfo._zoneinfo (pure Python) by tools/vlib/zones.py",
            "the theorems assume wf_zone / wf2_zone of the table; the harness evaluates both on every window it feeds to the model and reports zones that fail them"]
 ASSUMPTIONS = ["native datetime + timedelta resets fold to 0 (CPython behaviour, observed through the correspondence)",
+               "history oracle: a value keeps the fold that was asked for (PEP 495: fold is an attribute of the value; stdlib replace()/tzinfo changes keep it) unless it was "
+               "moved out of a gap (then 0) or denotes an instant (in_timezone, add of fixed units, from_timestamp(tz): the instant's fold)",
                "zone windows of +-3 days around the probe are enough for the lookups (the oracle uses the full zoneinfo object, not the window)"]
 ENTRIES = ["datetime", "convert", "tzdatetime", "set", "at", "replace", "parse"]
 
@@ -147,7 +157,7 @@ def history_cases(tier, rnd, zs):
                 if not (T.US_DAY * 9 < W < T.MAX_WALL - T.US_DAY * 9):
                     continue
                 sh = _shapes(name, W, rnd, zs)
-                for j in range(3 if tier == "quick" else 5):
+                for j in range(3 if tier == "quick" else 1):      # thorough: every transition of every zone, one shape per probe (shapes rotate)
                     kind, ops = sh[k % len(sh)]
                     k += 7                                   # 7 is coprime to the number of shapes: every shape meets every probe position
                     out.append({"stream": "history-" + kind, "fn": "hist", "args": [ops]})
@@ -155,7 +165,7 @@ def history_cases(tier, rnd, zs):
 
 
 def search_cases(seed):
-    return [c for c in cases("thorough", seed) if c["fn"] == "create"][::3]
+    return [c for c in cases("thorough", seed) if c["fn"] in ("create", "hist")][::3]
 
 
 def nontrivial(c):
@@ -324,7 +334,20 @@ def _rule(spec, W, f, r, quirks=()):
     return ("oracle", f"found {len(sols)} instants")
 
 
+_REF = {}
+
+
 def _ref_history(ops, quirks=()):
+    """Memoised _ref_history_ (both backends, the model call and known() ask for the same histories)."""
+    key = (json.dumps(ops), tuple(quirks))
+    if key not in _REF:
+        if len(_REF) > 400000:
+            _REF.clear()
+        _REF[key] = _ref_history_(ops, quirks)
+    return _REF[key]
+
+
+def _ref_history_(ops, quirks=()):
     """Expected value after every step: list of (W, fold, offset, fold_is_observable) ending with ("raise", code) when a step has to raise.
     State: zone spec (None = naive), wall, fold.  quirks: listed findings switched on (known() only), () = the property."""
     exp, zone, W, f = [], None, 0, 0
@@ -466,35 +489,57 @@ def _zone_after(ops):
 
 
 # ----------------------------------------------------------------------------- model
-def _enc_zone(spec, W):
-    u = T.unix_of_wall(W)
-    return T.zone_enc(spec, u - 100000, u + 100000) + [1 if isinstance(spec, int) else 0]
+def _enc_zone(spec, walls):
+    us = [T.unix_of_wall(W) for W in walls]
+    return T.zone_enc(spec, min(us) - 100000, max(us) + 100000) + [1 if isinstance(spec, int) else 0]
+
+
+_ZONE_OPS = ("datetime", "parse", "parse_off", "instance", "from_timestamp", "set_tz", "replace_tzinfo", "in_tz")
 
 
 def _history_call(ops):
-    """The history in the wire format of Model/WallHistory.v (parse_op).  Zone windows are centred on the wall value the rules predict."""
+    """The history in the wire format of Model/WallHistory.v (parse_op).  The window of a zone covers every wall value that the rules predict
+    for the steps during which the value stays in that zone (the lookups depend only on the transitions near the queried time:
+    zone_window_irrelevance)."""
     exp = _ref_history(ops, ("fixed", "naive()"))
-    enc, W, zone = [], 0, None
+    walls = []                       # wall value after step i (the last known one when the reference stops early)
+    for i in range(len(ops)):
+        ok = i < len(exp) and exp[i][0] not in ("raise", "oracle")
+        walls.append(exp[i][0] if ok else (walls[-1] if walls else 0))
+
+    def span(i):
+        j = i + 1
+        while j < len(ops) and ops[j][0] not in _ZONE_OPS:
+            j += 1
+        w = walls[i:j] + ([walls[i - 1]] if i else [])
+        op = ops[i]
+        if op[0] in ("datetime",):
+            w.append(op[2])
+        elif op[0] in ("parse", "parse_off", "instance"):
+            w.append(op[1])
+        return w
+
+    enc, zone = [], None
     for i, op in enumerate(ops):
         k = op[0]
         if k == "datetime":
             zone = "UTC" if op[1] is None else op[1]
-            enc += [1] + _enc_zone(zone, op[2]) + [op[2], 1 if op[3] is None else op[3], op[4]]
+            enc += [1] + _enc_zone(zone, span(i)) + [op[2], 1 if op[3] is None else op[3], op[4]]
         elif k in ("parse", "parse_off"):
             zone = op[2] if (k == "parse_off" or op[2] is not None) else "UTC"
-            enc += [1] + _enc_zone(zone, op[1]) + [op[1], 1, 0]
+            enc += [1] + _enc_zone(zone, span(i)) + [op[1], 1, 0]
         elif k == "instance":
             zone = "UTC" if op[3] is None else op[3]
-            enc += [1] + _enc_zone(zone, op[1]) + [op[1], op[2], 0]
+            enc += [1] + _enc_zone(zone, span(i)) + [op[1], op[2], 0]
         elif k == "naive":
             zone = None
             enc += [2, op[1], 1 if op[2] is None else op[2]]
         elif k == "from_timestamp":
             zone = "UTC" if op[2] is None else op[2]
-            enc += [3] + _enc_zone(zone, T.EPOCH_US + op[1] * T.MEG) + [1 if zone == "UTC" else 0, op[1]]
+            enc += [3] + _enc_zone(zone, span(i) + [T.EPOCH_US + op[1] * T.MEG]) + [1 if zone == "UTC" else 0, op[1]]
         elif k in ("set_tz", "replace_tzinfo"):
             zone = op[1]
-            enc += [4] + _enc_zone(zone, W)
+            enc += [4] + _enc_zone(zone, span(i))
         elif k in ("set", "replace"):
             enc += [5, op[1]]
         elif k == "on":
@@ -506,7 +551,7 @@ def _history_call(ops):
         elif k == "in_tz":
             same = 1 if op[1] == zone else 0
             zone = op[1]
-            enc += [9] + _enc_zone(zone, W) + [same]
+            enc += [9] + _enc_zone(zone, span(i)) + [same]
         elif k == "add":
             enc += [10] + list(op[1:5])
         elif k == "naive()":
@@ -515,8 +560,6 @@ def _history_call(ops):
         elif k == "replace_tzinfo_none":
             zone = None
             enc += [12]
-        if i < len(exp) and exp[i][0] not in ("raise", "oracle"):
-            W = exp[i][0]
     return enc
 
 
@@ -619,8 +662,12 @@ LEVEL_TEXT = ("Machine-checked Coq theorems, for EVERY well-formed tz table and 
               "distinguished by fold / no instant), and for the model of Timezone.convert / DateTime.create: unique times returned as is with the database offset, "
               "repeated times denote the later instant with fold 1 and the earlier with fold 0, skipped times move forward (fold 1) or backward (fold 0) by exactly the "
               "gap onto an unambiguous wall time with the post/pre-transition offset, raise_on_unknown_times raises exactly for skipped/repeated, every returned value "
-              "survives a UTC round trip. The model is tied to /repo by correspondence on every gap and overlap of the tz data through seven entry points, both backends.")
+              "survives a UTC round trip. The model is tied to /repo by correspondence on every gap and overlap of the tz data through seven entry points, both backends. "
+              "A construction after a history (set/on/at/replace read the instance's fold): a state machine over the operations (Model/WallHistory.v) is proved transparent "
+              "-- the result is the direct construction with the fold asked for -- after a construction in UTC / any named zone where the wall time exists, across two hops, "
+              "replace(fold=) and replace(tzinfo=None); a moved value carries fold 0; the two places where the code loses the fold (FixedTimezone.convert, DateTime.naive()) "
+              "are modelled faithfully with _refuted witnesses, the exact fold-0 reading, and _partial theorems on the region where the loss does not show.")
 DESIGN_REF = "DESIGN.md section 4 C02, section 3.2"
-LEVEL_NOTE = ("Trusted: Coq kernel+VM; Spec/Zone.v as a model of zoneinfo (validated against zoneinfo at every probe); the hand model Model/TzConvert.v of tz/timezone.py and "
+LEVEL_NOTE = ("history-* streams are inside the Coq model (dispatch entry hist = WallHistory.run_history, compared step by step with the implementation). Trusted: Coq kernel+VM; Spec/Zone.v as a model of zoneinfo (validated against zoneinfo at every probe); the hand model Model/TzConvert.v of tz/timezone.py and "
               "DateTime.create (validated by correspondence); wf/wf2 of real tables is evaluated, not proved; extraction+driver cross-checked with vm_compute.")
 TECHNIQUE = "Coq proof by induction over transition tables (lia) + differential correspondence at every tz transition"
